@@ -70,6 +70,11 @@ package lang
 //@ func MatchNilCheck
 //@   property C02
 //@   ensures shape: result0 != nil ==> istype(v, *ssa.BinOp) && (v.(*ssa.BinOp).Op == token.EQL || v.(*ssa.BinOp).Op == token.NEQ) && (result1 <==> v.(*ssa.BinOp).Op == token.EQL) && ((result0 == v.(*ssa.BinOp).Y && v.(*ssa.BinOp).X.String() == "nil:error") || (result0 == v.(*ssa.BinOp).X && v.(*ssa.BinOp).Y.String() == "nil:error"))
+//@   modifies nothing
+
+//@ func IsErrorType
+//@   property C02
+//@   modifies nothing
 
 //@ func LastInstr
 //@   property C02
